@@ -14,7 +14,10 @@ Assumptions (DESIGN 6/C11; conformance: bounded/conf_icalendar.py):
 
 opaque("PropSource", truthy="true")
 opaque("Prop", attrs={"dt": "opaque:DT"}, truthy="true")
-opaque("DT", attrs={"time": "opt[int]"}, as_int="seconds", nonneg=True)
+opaque("DT", attrs={"time": "opt[opaque:Method]", "tzinfo": "opt[opaque:TZ]"}, as_int="seconds", nonneg=True)
+opaque("Method", truthy="true")
+opaque("TZ", truthy="true")
+opaque("TimeV", attrs={"tzinfo": "opt[opaque:TZ]"})
 opaque("Tzify")
 ghost("prop_of", ["opaque:PropSource", "str"], "opt[opaque:Prop]")
 ghost("ts_of", ["opaque:DT"], "int")
@@ -31,3 +34,32 @@ class PropSource_get:
 class Tzify_call:
     def ensures(self, dt, result):
         return result == ts_of(dt)
+
+
+# ---------------------------------------------------------------------------- datetime (ASSUMED)
+# date / datetime values are abstract; what the standard library guarantees about the three
+# operations as_tz_aware_ts uses is stated through three ghost functions.
+ghost("time_value", ["opt[opaque:TZ]"], "opaque:TimeV")          # datetime.time(tzinfo=z): 00:00 in z (naive for None)
+ghost("combine_of", ["opaque:DT", "opaque:TimeV"], "opaque:DT")   # datetime.combine(d, t)
+ghost("with_tz", ["opaque:DT", "opt[opaque:TZ]"], "opaque:DT")    # dt.replace(tzinfo=z)
+
+
+@contract("ext:datetime.time", params={"tzinfo": "opt[opaque:TZ]"}, defaults={"tzinfo": None},
+          returns="opaque:TimeV", assumed=True)
+class datetime_time:
+    def ensures(tzinfo, result):
+        return result == time_value(tzinfo) and result.tzinfo == tzinfo
+
+
+@contract("ext:datetime.datetime.combine", params={"date": "opaque:DT", "time": "opaque:TimeV"},
+          returns="opaque:DT", assumed=True)
+class datetime_combine:
+    def ensures(date, time, result):
+        return result == combine_of(date, time) and result.time is not None and result.tzinfo == time.tzinfo
+
+
+@contract("iface:DT.replace", params={"self": "opaque:DT", "tzinfo": "opt[opaque:TZ]"}, returns="opaque:DT", assumed=True)
+class DT_replace:
+    def ensures(self, tzinfo, result):
+        return (result == with_tz(self, tzinfo) and result.tzinfo == tzinfo
+                and (result.time is None) == (self.time is None))
